@@ -19,6 +19,8 @@ REGISTRY = {
     "C14": ("vf.props.treeprops", "C14"),
     "C15": ("vf.props.treeprops", "C15"),
     "C03": ("vf.props.parser", "C03"),
+    "C08": ("vf.props.documented", None),
+    "C09": ("vf.props.sequences", None),
     "C10": ("vf.props.parser", "C10"),
     "C04": ("vf.props.printer", None),
     "C05": ("vf.props.evaluate", None),
